@@ -358,6 +358,22 @@ def api_list():
             gini(getattr(Dc, 'value', Dc), mask=Mc)
         return ins, go
 
+    def image_depth(sc, D, E, M, U):
+        # ImageDepth is excluded from the static analysis (path-correlated guards): covered here with every mask kind the guards
+        # distinguish - no True pixel at all, some True pixels - and None
+        from photutils.utils import ImageDepth
+        raw = getattr(D, 'value', D)
+        raw = np.asarray(np.ma.getdata(raw))
+        none_true = np.zeros(raw.shape, bool)
+        some_true = np.zeros(raw.shape, bool)
+        some_true[3:6, 4:8] = True
+        ins = dict(data=raw, mask_none_true=none_true, mask_some_true=some_true)
+
+        def go():
+            for m_ in (none_true, some_true):
+                ImageDepth(3.0, nsigma=5.0, mask_pad=2, napers=15, niters=2, seed=3, progress_bar=False)(np.nan_to_num(raw, nan=0.0, posinf=0.0, neginf=0.0), m_)
+        return ins, go
+
     def isophote(sc, D, E, M, U):
         from photutils.isophote import Ellipse, EllipseGeometry
         x0, y0 = sc['pos'][0]
@@ -404,7 +420,7 @@ def api_list():
 
     return [('epsf', epsf), ('aperture', aperture), ('aperture-nddata', aperture_nddata), ('background', background), ('segmentation', segmentation),
             ('detection', detection), ('centroids', centroids), ('profiles', profiles), ('calc_total_error', total_error), ('psf', psf),
-            ('make_model_image', render), ('morphology', morphology), ('isophote', isophote)]
+            ('make_model_image', render), ('morphology', morphology), ('isophote', isophote), ('ImageDepth', image_depth)]
 
 
 def sweep(rep, r, nscenes):
